@@ -20,6 +20,46 @@ var c14Values = []string{"-7", "-2", "-1", "0", "1", "2", "3", "8", "0.5", "1.5"
 	// beyond the 53-bit mantissa and beyond int64: only for forms that compare or order (no arithmetic)
 	"9007199254740992", "9007199254740993", "9223372036854775807", "9223372036854775808", "18446744073709551615", "-9223372036854775808"}
 
+// c14MoreValues (thorough): the boundaries of every fixed-width kind, one past them, more dyadic fractions, more spellings.
+var c14MoreValues = []string{"-128", "-129", "127", "128", "256", "-32768", "-32769", "32767", "32768", "65535", "65536", "-2147483648", "-2147483649", "2147483647",
+	"4294967295", "4294967296", "16777216", "16777217", "-16777217", "0.25", "-0.125", "0.75", "1e3", "100", "1024", "10e1", "4503599627370496", "-9007199254740993", "9223372036854775806", "18446744073709551614"}
+
+func c14ValueList(thorough bool) []string {
+	if thorough {
+		return append(append([]string{}, c14Values...), c14MoreValues...)
+	}
+	return c14Values
+}
+
+// three-leaf forms (thorough): every ordered triple of kinds over a small value set.
+var c14TripleForms = []string{"sort([x, y, z])", "max([x, y, z])", "min([z, y, x])", "x + y + z", "x * y - z", "x < y && y < z", "x <= y || y <= z", "[x, y, z] == [z, y, x]", "sum([x, y, z])", "avg([x, y, z, z])",
+	"contains([x, y], z)", "sort_by([{k: x, i: `0`}, {k: y, i: `1`}, {k: z, i: `2`}], &k)[*].i", "max_by([{k: x, i: `0`}, {k: y, i: `1`}, {k: z, i: `2`}], &k).i", "[x, y, z][?@ > `0`]", "not_null(`null`, x, y, z)", "{a: x, b: y} == {b: z, a: x}",
+	"[x, y, z][::-1]", "x == y && y == z"}
+var c14TripleValues = []string{"-1", "0", "1", "2", "0.5", "255", "1.0"}
+
+func c14Triple(r *core.Run, expr, kx, ky, kz, vx, vy, vz string) *core.Violation {
+	x, ok1 := carry(kx, vx)
+	y, ok2 := carry(ky, vy)
+	z, ok3 := carry(kz, vz)
+	if !ok1 || !ok2 || !ok3 {
+		return nil
+	}
+	base := map[string]any{"x": json.Number(vx), "y": json.Number(vy), "z": json.Number(vz)}
+	c := prepareImplCached(expr)
+	ob := c.run(base)
+	o := c.run(map[string]any{"x": x, "y": y, "z": z})
+	r.Eval(ob)
+	r.Add("evaluations", 1)
+	r.Add("transitions", 1)
+	if ob.Key() == o.Key() {
+		return nil
+	}
+	return &core.Violation{Sig: "C14/triple " + expr + "/" + c14KindClass(kx) + "," + c14KindClass(ky) + "," + c14KindClass(kz),
+		Desc:     fmt.Sprintf("Search(%q) with x=%s as %s, y=%s as %s, z=%s as %s", expr, vx, kx, vy, ky, vz, kz),
+		Point:    map[string]any{"form": "triple", "expr": expr, "kx": kx, "ky": ky, "kz": kz, "vx": vx, "vy": vy, "vz": vz, "doc": fmt.Sprintf(`{"x":%s,"y":%s,"z":%s} carried by %s,%s,%s`, vx, vy, vz, kx, ky, kz)},
+		Expected: "the json.Number outcome: " + ob.Short(), Actual: o.Short()}
+}
+
 // carry builds the Go value of the given kind holding the number, if it can.
 func carry(kind, text string) (any, bool) {
 	r, ok := core.ParseDecimal(text)
@@ -112,8 +152,31 @@ func c14Forms() []c14Form {
 		lim := big.NewRat(256, 1)
 		return new(big.Rat).Abs(x).Cmp(lim) < 0 && new(big.Rat).Abs(y).Cmp(lim) < 0
 	}
+	// the exact result must fit the 53-bit mantissa of the float carriers (2147483647 x 16777217 does not)
+	fits53 := func(r *big.Rat) bool {
+		if !dyadic(r) {
+			return false
+		}
+		n := new(big.Int).Abs(r.Num())
+		for n.Sign() != 0 && n.Bit(0) == 0 {
+			n.Rsh(n, 1)
+		}
+		return n.BitLen() <= 53
+	}
 	for _, op := range []string{"+", "-", "*", "−", "×"} {
-		fs = append(fs, c14Form{"arith " + op, "x " + op + " y", 2, always})
+		op := op
+		fs = append(fs, c14Form{"arith " + op, "x " + op + " y", 2, func(x, y *big.Rat) bool {
+			if !always(x, y) {
+				return false
+			}
+			switch op {
+			case "+":
+				return fits53(new(big.Rat).Add(x, y))
+			case "-", "−":
+				return fits53(new(big.Rat).Sub(x, y))
+			}
+			return fits53(new(big.Rat).Mul(x, y))
+		}})
 	}
 	for _, op := range []string{"/", "÷"} {
 		fs = append(fs, c14Form{"arith " + op, "x " + op + " y", 2, func(x, y *big.Rat) bool {
@@ -162,7 +225,7 @@ func init() {
 		ID:    "C14",
 		Title: "results do not depend on which Go type carries a number",
 		Rule: "for every expression form of the menu (all binary arithmetic operators and comparators, equality inside containers, truthiness, type, the numeric and ordering functions, unary signs, every integer-argument position) and every value (pair) of the value alphabet, " +
-			"the number leaves of the document are carried by every Go numeric kind able to hold the value exactly - all 14 single kinds and all 14x14 ordered pairs of kinds for two-leaf forms - and the observation must equal, by value, the observation of the all-json.Number configuration; " +
+			"the number leaves of the document are carried by every Go numeric kind able to hold the value exactly - all 14 single kinds and all 14x14 ordered pairs of kinds for two-leaf forms (thorough: the boundaries of every fixed-width kind as values, and all 14x14x14 ordered triples of kinds for three-leaf forms) - and the observation must equal, by value, the observation of the all-json.Number configuration; " +
 			"non-trivial = a non-null, non-empty, non-error baseline outcome; distinct_nontrivial counts distinct such outcomes",
 		Phases: []core.Phase{{Name: "carriers", Build: "instr", Fn: c14Run}},
 		Judge:  c14Judge,
@@ -252,10 +315,41 @@ func c14Run(r *core.Run) {
 	forms := c14Forms()
 	r.Bound("forms", len(forms))
 	r.Bound("kinds", c14Kinds)
-	r.Bound("values", c14Values)
+	values := c14ValueList(r.Thorough())
+	r.Bound("values", values)
 	n := 0
+	if r.Thorough() {
+		r.Bound("triple_forms", c14TripleForms)
+		r.Bound("triple_values", c14TripleValues)
+		for _, e := range c14TripleForms {
+			for _, vx := range c14TripleValues {
+				for _, vy := range c14TripleValues {
+					n++
+					if !r.Mine(n) {
+						continue
+					}
+					if r.Expired() {
+						return
+					}
+					r.Add("states", 1)
+					for _, vz := range c14TripleValues {
+						for _, kx := range c14Kinds {
+							for _, ky := range c14Kinds {
+								for _, kz := range c14Kinds {
+									r.Begin(map[string]any{"expr": e, "doc": vx + " " + vy + " " + vz + " " + kx + " " + ky + " " + kz})
+									if v := c14Triple(r, e, kx, ky, kz, vx, vy, vz); v != nil {
+										r.Violate(v)
+									}
+								}
+							}
+						}
+					}
+				}
+			}
+		}
+	}
 	for _, f := range forms {
-		for _, vx := range c14Values {
+		for _, vx := range values {
 			n++
 			if !r.Mine(n) {
 				continue
@@ -264,7 +358,7 @@ func c14Run(r *core.Run) {
 				return
 			}
 			r.Add("states", 1)
-			ys := c14Values
+			ys := values
 			if f.Arity == 1 {
 				ys = []string{"1"}
 			}
@@ -291,6 +385,9 @@ func c14Run(r *core.Run) {
 }
 
 func c14Judge(r *core.Run, phase string, pt map[string]any) *core.Violation {
+	if pstr(pt, "form") == "triple" {
+		return c14Triple(r, pstr(pt, "expr"), pstr(pt, "kx"), pstr(pt, "ky"), pstr(pt, "kz"), pstr(pt, "vx"), pstr(pt, "vy"), pstr(pt, "vz"))
+	}
 	for _, f := range c14Forms() {
 		if f.Name == pstr(pt, "form") {
 			return c14Check(r, f, pstr(pt, "kx"), pstr(pt, "ky"), pstr(pt, "vx"), pstr(pt, "vy"))
